@@ -325,7 +325,7 @@ func (m *Markdown) renderInlineNode(w io.Writer, node ast.Node, src []byte) erro
 			return err
 		}
 		if n.HardLineBreak() {
-			return m.renderTemplate(w, "hard_break", nil)
+			return m.renderInline(w, "hard_break", nil)
 		} else if n.SoftLineBreak() {
 			_, err := io.WriteString(w, "\n")
 			return err
@@ -336,25 +336,25 @@ func (m *Markdown) renderInlineNode(w io.Writer, node ast.Node, src []byte) erro
 		return err
 	case *ast.CodeSpan:
 		content := codeSpanContent(n, src)
-		return m.renderTemplate(w, "code_span", map[string]any{
+		return m.renderInline(w, "code_span", map[string]any{
 			"content": content,
 		})
 	case *ast.Emphasis:
 		content := m.inlineContent(n, src)
-		return m.renderTemplate(w, "emphasis", map[string]any{
+		return m.renderInline(w, "emphasis", map[string]any{
 			"level":   n.Level,
 			"content": content,
 		})
 	case *ast.Link:
 		content := m.inlineContent(n, src)
-		return m.renderTemplate(w, "link", map[string]any{
+		return m.renderInline(w, "link", map[string]any{
 			"href":    string(util.URLEscape(n.Destination, true)),
 			"title":   plainText(n.Title),
 			"content": content,
 		})
 	case *ast.Image:
 		alt := inlineText(n, src)
-		return m.renderTemplate(w, "image", map[string]any{
+		return m.renderInline(w, "image", map[string]any{
 			"src":   string(util.URLEscape(n.Destination, true)),
 			"alt":   alt,
 			"title": plainText(n.Title),
@@ -366,7 +366,7 @@ func (m *Markdown) renderInlineNode(w io.Writer, node ast.Node, src []byte) erro
 		if n.AutoLinkType == ast.AutoLinkEmail {
 			href = "mailto:" + url
 		}
-		return m.renderTemplate(w, "autolink", map[string]any{
+		return m.renderInline(w, "autolink", map[string]any{
 			"href":  href,
 			"label": label,
 		})
@@ -376,16 +376,16 @@ func (m *Markdown) renderInlineNode(w io.Writer, node ast.Node, src []byte) erro
 			seg := n.Segments.At(i)
 			buf.Write(seg.Value(src))
 		}
-		return m.renderTemplate(w, "raw_html", map[string]any{
+		return m.renderInline(w, "raw_html", map[string]any{
 			"content": buf.String(),
 		})
 	case *east.Strikethrough:
 		content := m.inlineContent(n, src)
-		return m.renderTemplate(w, "strikethrough", map[string]any{
+		return m.renderInline(w, "strikethrough", map[string]any{
 			"content": content,
 		})
 	case *east.TaskCheckBox:
-		return m.renderTemplate(w, "task_checkbox", map[string]any{
+		return m.renderInline(w, "task_checkbox", map[string]any{
 			"checked": n.IsChecked,
 		})
 	default:
@@ -418,6 +418,19 @@ func (m *Markdown) renderTemplate(w io.Writer, name string, data map[string]any)
 }
 
 // inlineText extracts plain text from an inline node tree (used for alt text, heading IDs).
+// renderInline renders the template of an inline construct. The serialiser
+// ends every element with a newline; inside a line of text that newline would
+// become a space the source does not have ("**bold**, x" must not read
+// "bold , x"), so it is dropped here.
+func (m *Markdown) renderInline(w io.Writer, name string, data map[string]any) error {
+	var buf bytes.Buffer
+	if err := m.renderTemplate(&buf, name, data); err != nil {
+		return err
+	}
+	_, err := io.WriteString(w, strings.TrimSuffix(buf.String(), "\n"))
+	return err
+}
+
 func inlineText(node ast.Node, src []byte) string {
 	var buf strings.Builder
 	for c := node.FirstChild(); c != nil; c = c.NextSibling() {
